@@ -82,7 +82,7 @@ def register(reg):
                 "%(s)s[3] is not None and same(%(s)s[3], col(%(g)s, 'abs_curv', npts(%(g)s) - 1) - col(%(g)s, 'abs_curv', %(v)s + 1) + "
                 "d2d(X(%(g)s, %(v)s + 1), Y(%(g)s, %(v)s + 1), %(s)s[0].E, %(s)s[0].N))") % dict(s=s, v=v, g=g, ns=nonskip(g, v), sg=seg(g, v, I))
 
-    def cand(rows):
+    def cand(rows, extra="True"):
         s = ST % ("I0", "C0")
         v = "VS_[I0][C0]"
         matched = ("edgepos(%(s)s[1]) and 0 <= %(v)s and %(v)s < npts(%(g)s) - 1 and %(ns)s and "
@@ -91,7 +91,7 @@ def register(reg):
                    "%(s)s[3] is not None and same(%(s)s[3], col(%(g)s, 'abs_curv', npts(%(g)s) - 1) - col(%(g)s, 'abs_curv', %(v)s + 1) + "
                    "d2d(X(%(g)s, %(v)s + 1), Y(%(g)s, %(v)s + 1), %(s)s[0].E, %(s)s[0].N))") % dict(s=s, v=v, g=GS, ns=nonskip(GS, v), sg=seg(GS, v, "I0"))
         unmatched = "%(s)s[1] == -1 and %(s)s[0] is obs(track, I0).position and len(STATES[I0]) == 1" % dict(s=s)
-        return "implies(0 <= I0 and I0 < %s and 0 <= C0 and C0 < len(STATES[I0]), (%s) or (%s))" % (rows, unmatched, matched)
+        return "implies(0 <= I0 and I0 < %s and 0 <= C0 and C0 < len(STATES[I0]) and (%s), (%s) or (%s))" % (rows, extra, unmatched, matched)
     SHAPE = ("len(VS_) == len(STATES) and all(len(VS_[r]) == len(STATES[r]) for r in range(0, len(STATES))) and "
              "all(isold(STATES[r][c][0]) for r in range(0, len(STATES)) for c in range(0, len(STATES[r])))")
     KEEP = "unchanged_old_class('ENUCoords') and unchanged_old_class('Obs') and unchanged_old_class('Track') and unchanged_old_class('Edge') and unchanged_old_class('Network')"
@@ -108,12 +108,14 @@ def register(reg):
                      "(p, d, v) = __projOnTrack(track[i].position, eg)": ["use sq_mono(d, search_radius)",
                                                                             ("candidates-kept-by-the-projection", cand("i + 1"))],
                      "STATES[-1].append((p, elem, __distToNode(eg, p, v, 0), __distToNode(eg, p, v, 1)))": [
-                         "ghost VS_ = VS_[0:len(VS_) - 1] + [VS_[len(VS_) - 1] + [v]]",
+                         "ghost VS_[len(VS_) - 1] = VS_[len(VS_) - 1] + [v]",
                          ("shape-after-the-new-candidate", "len(STATES) == i + 1 and " + SHAPE),
                          ("the-new-candidate", matched_at("i", "(len(STATES[i]) - 1)")),
                          ("earlier-candidates-kept", "all(STATES[i][c][1] != -1 for c in range(0, len(STATES[i])))"),
+                         ("candidates-of-earlier-observations-kept", cand("i + 1", "I0 < i")),
+                         ("earlier-candidates-of-this-observation-kept", cand("i + 1", "I0 == i and C0 < len(STATES[i]) - 1")),
                          ("all-candidates-so-far", cand("i + 1"))],
-                     "STATES[-1].append((track[i].position, -1, -1, -1))": ["ghost VS_ = VS_[0:len(VS_) - 1] + [VS_[len(VS_) - 1] + [-1]]"]},
+                     "STATES[-1].append((track[i].position, -1, -1, -1))": ["ghost VS_[len(VS_) - 1] = VS_[len(VS_) - 1] + [-1]"]},
                  loops={"1": LoopSpec(inv=["len(STATES) == i", SHAPE, "all(len(STATES[r]) >= 1 for r in range(0, i))", cand("i"), KEEP]),
                         "1.1": LoopSpec(inv=["len(STATES) == i + 1", SHAPE, "all(len(STATES[r]) >= 1 for r in range(0, i))", cand("i + 1"),
                                              "all(STATES[i][c][1] != -1 for c in range(0, len(STATES[i])))", KEEP])},
